@@ -51,6 +51,45 @@ Proof.
   intros Hr Hs. unfold declared. apply filter_In. split; [exact Hs|]. apply mem_In. unfold used_types. apply iter_mono; exact Hr.
 Qed.
 
+(* nothing else is declared: every declared name is a project struct REACHABLE from a site through field types *)
+Inductive reach (all : list sinfo) (roots : list str) : str -> Prop :=
+| reach_root n : In n roots -> reach all roots n
+| reach_field a s n : reach all roots a -> find_struct all a = Some s -> In n (flat_map refs (s_fields s)) -> reach all roots n.
+Section Reach.
+  Variable all : list sinfo.
+  Variable roots : list str.
+  Let R := reach all roots.
+  Lemma add_new_reach acc x : (forall y, In y acc -> R y) -> R x -> forall y, In y (add_new all acc x) -> R y.
+  Proof. intros Ha Hx y. unfold add_new. destruct (mem x acc || negb (is_struct all x)); [apply Ha|].
+    intros H. apply in_app_or in H. destruct H as [H|[<-|[]]]; [apply Ha; exact H|exact Hx]. Qed.
+  Lemma fold_add_reach l : forall acc, (forall y, In y acc -> R y) -> (forall x, In x l -> R x) ->
+    forall y, In y (fold_left (add_new all) l acc) -> R y.
+  Proof. induction l as [|x r IH]; intros acc Ha Hl; [exact Ha|]. cbn [fold_left]. apply IH.
+    - apply add_new_reach; [exact Ha|apply Hl; left; reflexivity].
+    - intros z Hz. apply Hl. right; exact Hz. Qed.
+  Lemma step_reach used : (forall y, In y used -> R y) -> forall y, In y (step all used) -> R y.
+  Proof.
+    intros Hu. unfold step.
+    assert (G : forall l acc, (forall n, In n l -> R n) -> (forall y, In y acc -> R y) ->
+                forall y, In y (fold_left (fun acc n => match find_struct all n with
+                          | Some s => fold_left (add_new all) (flat_map refs (s_fields s)) acc
+                          | None => acc end) l acc) -> R y).
+    { induction l as [|n r IH]; intros acc Hl Ha; [exact Ha|]. cbn [fold_left]. apply IH.
+      - intros z Hz. apply Hl. right; exact Hz.
+      - destruct (find_struct all n) as [s|] eqn:E; [|exact Ha]. apply fold_add_reach; [exact Ha|].
+        intros x Hx. apply (reach_field all roots n s x); [apply Hl; left; reflexivity|exact E|exact Hx]. }
+    apply G; exact Hu.
+  Qed.
+  Lemma iter_reach : forall k used, (forall y, In y used -> R y) -> forall y, In y (iter k all used) -> R y.
+  Proof. induction k as [|k IH]; intros used Hu; [exact Hu|]. cbn [iter]. apply IH. apply step_reach; exact Hu. Qed.
+End Reach.
+Theorem declared_reachable m all sites n : In n (declared m all sites) ->
+  In n (map s_name all) /\ reach all (flat_map refs sites) n.
+Proof.
+  unfold declared. intros H. apply filter_In in H. destruct H as [Hs Hm]. split; [exact Hs|]. apply mem_In in Hm.
+  unfold used_types in Hm. revert Hm. apply iter_reach. intros y Hy. apply reach_root; exact Hy.
+Qed.
+
 (* the run-time oracle is the clause *)
 Lemma decl_oracle_exact m names : c18_decl_ok m names = true <->
   forall n tg, In (n, tg) m -> ~ In n names /\ ~ In (n ++ L "Schema") names.
